@@ -2,7 +2,9 @@ package props
 
 import (
 	"bytes"
+	"errors"
 	"fmt"
+	"io"
 	"runtime/debug"
 	"testing"
 
@@ -38,11 +40,40 @@ const (
 	skReaderDec
 	skBufReaderStrict // BufferReader.Skip over a non-allocating bufiox.Reader (no allocation cap needed)
 	skSkipDecStrict   // SkipDecoder.Next over a non-allocating bufiox.Reader
+	skTplScratch      // SkipDecoderTpl over a caller-written SkipDecoderIface that reuses one scratch buffer for every SkipN
 	nSkippers
 )
 
 var skipperNames = [nSkippers]string{"Binary.Skip", "BytesSkipDecoder.Next", "BufferReader.Skip", "SkipDecoder.Next", "ReaderSkipDecoder.Next",
-	"BufferReader.Skip (non-allocating bufiox.Reader)", "SkipDecoder.Next (non-allocating bufiox.Reader)"}
+	"BufferReader.Skip (non-allocating bufiox.Reader)", "SkipDecoder.Next (non-allocating bufiox.Reader)", "SkipDecoderTpl over a SkipDecoderIface that reuses its buffer"}
+
+// scratchSkipper is a SkipDecoderIface as its documentation allows: the bytes it returns are only valid until
+// the next SkipN call, because every call copies into (and overwrites) the same scratch buffer. Requests
+// larger than the scratch are served from the data itself after the scratch has been overwritten.
+type scratchSkipper struct {
+	data    []byte
+	pos     int
+	scratch [64]byte
+}
+
+func (s *scratchSkipper) SkipN(n int) ([]byte, error) {
+	if n < 0 {
+		return nil, errors.New("verif: negative count")
+	}
+	if s.pos+n > len(s.data) || s.pos+n < s.pos {
+		return nil, io.EOF
+	}
+	for i := range s.scratch {
+		s.scratch[i] ^= 0xA5 // whatever was handed out before is gone
+	}
+	src := s.data[s.pos : s.pos+n]
+	s.pos += n
+	if n <= len(s.scratch) {
+		copy(s.scratch[:], src)
+		return s.scratch[:n], nil
+	}
+	return src, nil
+}
 
 // ---- C02 ---------------------------------------------------------------------------------------------
 
@@ -389,6 +420,11 @@ func runSkippers(b []byte, t int8, plan faultio.Plan, allowAlloc bool) [nSkipper
 		o.out, o.err, o.hasOut = append([]byte(nil), out...), err, true
 		o.n = sr.ReadLen()
 		sd.Release()
+	})
+	run(skTplScratch, func(o *skipOut) {
+		ss := &scratchSkipper{data: b}
+		o.err = thrift.NewSkipDecoderTpl(ss).Skip(t, 64)
+		o.n = ss.pos
 	})
 	if !allowAlloc {
 		return outs
